@@ -3,7 +3,7 @@
 use cteepbd::cte;
 
 use super::{flow_models, strs, FlowSpec};
-use crate::cmp::{self, bits_equal, cmp_flat, show};
+use crate::cmp::{self, bits_equal, show};
 use crate::core::*;
 use crate::model::*;
 use crate::sched;
@@ -51,7 +51,7 @@ fn check_scaled(base_ratios: bool, base: &Flat, base_dhw: &Result<f32, String>, 
     out.compared += 1;
     let t = subj::tol(mag) * c;
     let ratios = base_ratios && cmp::ratios_ok(&e2, mag * c);
-    let d = cmp_flat(base, &f2, t, 2e-5, &|p| p.starts_with("misc") || (p.starts_with("rer") && !ratios), &|p, x| if is_ratio(p) { x } else { x * c });
+    let d = cmp::cmp_flat_m(base, &f2, t, 2e-5, mag, mag * c, &|p| p.starts_with("misc") || (p.starts_with("rer") && !ratios), &|p, x| if is_ratio(p) { x } else { x * c });
     if !d.is_empty() {
         let energy = d.iter().any(|x| !is_ratio(&x.path));
         let (a, b) = show(&d);
@@ -79,7 +79,7 @@ fn check_area(base_ratios: bool, base: &Flat, comps: &cteepbd::Components, fs: &
     let f2 = result_flat(&e2);
     out.compared += 1;
     let ratios = base_ratios && cmp::ratios_ok(&e2, mag);
-    let d = cmp_flat(base, &f2, subj::tol(mag) * 0.05, 4e-6, &|p| p == "arearef" || (p.starts_with("rer") && !ratios), &|p, x| if p.starts_with("balance_m2.") { x / c } else { x });
+    let d = cmp::cmp_flat_m(base, &f2, subj::tol(mag) * 0.05, 4e-6, mag, mag, &|p| p == "arearef" || (p.starts_with("rer") && !ratios), &|p, x| if p.starts_with("balance_m2.") { x / c } else { x });
     if !d.is_empty() {
         let (a, b) = show(&d);
         out.viol("area_only_rescales_per_m2", &[], &cfg, format!("area x{c}: {b}"), format!("expected: {a}"));
